@@ -74,7 +74,20 @@ WinBases == << <<1>>, BFromBE(<<1>> \o [q \in 1..25 |-> 0]),
 WinTags == << "valid-window-x2", "valid-window-x2", "valid-window-x2+a", "valid-window-x2+a" >>
 WinCase(j, q) == IF FindPt(WinBases[q], 0, 60)[1] # "ok" THEN <<>>
                  ELSE << Craft(j, WinTags[q], Dof(j), FindPt(WinBases[q], 0, 60)[2], EncodePoint(FindPt(WinBases[q], 0, 60)[2], FALSE), "c1c3c2") >>
-WinCases(j) == IF j > 1 THEN <<>> ELSE WinCase(j, 1) \o WinCase(j, 2) \o WinCase(j, 3) \o WinCase(j, 4)
+\*   "y2"    the Montgomery form of y^2 (= of x^3 + ax + b) is small or just below 2^256 - p: here y is the square root of the CHOSEN value and
+\*           x is SOLVED for -- a root of the cubic x^3 + ax + (b - y^2) (Cubic.tla; checked exhaustively on toy fields by MC_Cubic)
+Cu == INSTANCE Cubic WITH CP <- PP, CA <- AA, CSqrtExp <- BFromBE(SqrtExpBytes)
+PtFromY2b(u, sq, rt) == IF sq[1] = "none" \/ rt[1] # "ok" THEN <<"none">> ELSE <<"ok", <<rt[2], sq[2]>> >>
+PtFromY2(u) == PtFromY2b(u, C!Sqrt(u), Cu!CubicRoot(BSubMod(BB, u, PP)))
+RECURSIVE FindPtY(_, _, _)
+FindPtY(base, i, lim) == IF i > lim THEN <<"none">> ELSE IF PtFromY2(BMulMod(BAddMod(base, <<i>>, PP), RMInv, PP))[1] = "ok" THEN PtFromY2(BMulMod(BAddMod(base, <<i>>, PP), RMInv, PP)) ELSE FindPtY(base, i + 1, lim)
+WinBasesY == << <<1>>, BFromBE(<<1>> \o [q \in 1..25 |-> 0]), BSub(BFromBE(<<1>> \o [q \in 1..32 |-> 0]), BAdd(PP, <<40>>)) >>
+WinPtY(q) == FindPtY(WinBasesY[q], 0, 40)
+ASSUME \A q \in 1..Len(WinBasesY) : WinPtY(q)[1] = "ok" => C!OnCurve(WinPtY(q)[2]) /\ BLt(BMulMod(BMulMod(WinPtY(q)[2][2], WinPtY(q)[2][2], PP), RM, PP), BSub(BFromBE(<<1>> \o [z \in 1..32 |-> 0]), PP))
+WinCaseY(j, q) == IF WinPtY(q)[1] # "ok" THEN <<>>
+                  ELSE << Craft(j, "valid-window-y2", Dof(j), WinPtY(q)[2], EncodePoint(WinPtY(q)[2], FALSE), "c1c3c2"),
+                          CraftC(j, "comp-valid-window-y2", Dof(j), WinPtY(q)[2], EncodePoint(WinPtY(q)[2], TRUE), "c1c3c2") >>
+WinCases(j) == IF j > 1 THEN <<>> ELSE WinCase(j, 1) \o WinCase(j, 2) \o WinCase(j, 3) \o WinCase(j, 4) \o WinCaseY(j, 1) \o WinCaseY(j, 2) \o WinCaseY(j, 3)
 Init == pidx = 0 /\ pout = <<>>
 Next == pidx < NK /\ pidx' = pidx + 1 /\
         pout' = << SpecCt(pidx + 1, "c1c2c3", FALSE), SpecCt(pidx + 1, "c1c3c2", FALSE), SpecCt(pidx + 1, "c1c2c3", TRUE), SpecCt(pidx + 1, "c1c3c2", TRUE) >>
